@@ -28,6 +28,7 @@ def generate(rng, tier):
     cs += sibling_key_cases(rng, "t")
     cs += typed_at_every_position_cases(rng, "t")
     import hdr_mix
+    cs += hdr_mix.big_call_cases(rng, Case, [("t", "s"), ("t", "c")])
     cs += hdr_mix.cases(rng, Case, [("t", "s"), ("t", "c")], 100 if tier == "quick" else 3000, 90, special_key=special_key)
     if tier == "thorough":
         cs += step_table_cases(rng, "t")
